@@ -213,4 +213,12 @@ class C17d(Obligation):
         ctx.check(out.value == expected, 'is_definition() <=> the token binds a name (ast)')
 
 
-OBLIGATIONS = [C17a, C17b, C17c, C17d]
+from obligations.c18 import C18d  # noqa: E402
+
+
+class C17e(C18d):
+    id = 'C17.e'
+    title = 'every definition token (also *args / **kwargs and annotated parameters) reports the position at which the text is exactly its name'
+
+
+OBLIGATIONS = [C17a, C17b, C17c, C17d, C17e]
